@@ -24,9 +24,21 @@
      (12 3 rows cols (data) r c)                         matrix.partition_quadrants(r, c)
         result:  (2)  or  (0 ((part ...) (x ...)))   part = ((rows cols) (p ...)) listing all its
                  cells in row-major order; then every cell of part k is overwritten with 1000 + k
-                 through the part and the root's data is dumped *)
+                 through the part and the root's data is dumped
+     (12 5 start (op ...) (rp) (cp))      the matrix a C11 history ends with (start and op as in
+                 Run/RunC11.v, the object being reused after caught panics) is partitioned
+        result:  (3) the constructor panicked, or (0 ((rows cols) R)) with R as for (12 2 ...)
+     (12 6 term (wrapper ...) (probe ...) (write ...))    a stack over MatrixRefTensor::from(t) where
+                 t is the 2-dimensional tensor view described by `term` in the language of
+                 Run/RunC02.v (Tensor / TensorRefMatrix leaves; TensorRange, TensorMask, TensorIndex,
+                 TensorExpansion, TensorRename, TensorReverse, TensorAccess, TensorTranspose,
+                 TensorStack, TensorChain, Box / &mut); the root is the tensor view's leaf store
+                 (the element of leaf id at offset k is id * 1000 + k, leaves in term order)
+        result:  (1 error) | (2) first failing tensor constructor (payloads of Model/Views.v), then
+                 as for (12 1 ...) *)
 From Coq Require Import List ZArith NArith Bool.
-From EasyML Require Import Base.Sx Model.Shape Model.MatrixViews.
+From EasyML Require Import Base.Sx Model.Shape Model.Matrix Model.MatrixViews Run.RunC11.
+From EasyML Require Model.Views Run.RunC02.
 Import ListNotations.
 Open Scope N_scope.
 
@@ -192,6 +204,33 @@ Definition run_c12 (args : list sx) : sx :=
           if root_ok rows cols data then c12_parts data (partition_quadrants rows cols r c)
           else bad_case
       | _, _, _, _, _ => bad_case
+      end
+  | [SZ 5%Z; start; ops; rp; cp] =>
+      match dstart start, dlist dop ops, dlist dN rp, dlist dN cp with
+      | Some first, Some ops, Some rp, Some cp =>
+          match first with
+          | Ok m0 =>
+              let m := fold_left (fun s o => fst (impl_step s o)) ops m0 in
+              SL [SZ 0; SL [SL [sN (m_rows m); sN (m_cols m)];
+                            c12_parts (m_data m) (partition (m_rows m) (m_cols m) rp cp)]]
+          | _ => SL [SZ 3]
+          end
+      | _, _, _, _ => bad_case
+      end
+  | [SZ 6%Z; term; ws; probes; writes] =>
+      match RunC02.dview 40 term, dlist dwrapper ws, dlist dprobe probes, dlist dwrite writes with
+      | Some tv, Some ws, Some probes, Some writes =>
+          if RunC02.nodup_b (RunC02.v_leaf_ids tv) then
+            match Views.v_ctor tv with
+            | Ok c => match over_tensor c with
+                      | Some leaf => c12_view (tensor_root c) (Ok leaf) ws probes writes
+                      | None => bad_case
+                      end
+            | Err e => SL [SZ 1; e]
+            | Panic => SL [SZ 2]
+            end
+          else bad_case
+      | _, _, _, _ => bad_case
       end
   | _ => bad_case
   end.
